@@ -781,7 +781,7 @@ def gen_bigint(rng, count, W=64):
                 if y[-1] == 0:
                     y[-1] = 1
             elif r < 0.5:
-                y = rand_big(rng, rng.choice([n, max(0, n - 1), n + 1]))
+                y = rand_big(rng, rng.choice([n, max(0, n - 1), n + 1]), W=W)
             line = "bg compare %s %s" % (ltok(x), ltok(y))
         elif op in ("hi64", "bhi64"):
             # normalised input only (the documented precondition of top-bit extraction)
@@ -808,6 +808,19 @@ def gen_bigint(rng, count, W=64):
         else:
             line = "bg scalar_mul %d %d %d" % (rand_limb(rng, W), rand_limb(rng, W), rand_limb(rng, W))
         out.append((line, "L-" + op))
+    return out
+
+def gen_bigint_huge(rng, count, W=64):
+    """shift counts far beyond the capacity (fixed-capacity back-end only): must report failure"""
+    out = []
+    H = huge_lengths(rng)
+    CAP = 4000 // W
+    for _ in range(count):
+        x = rand_big(rng, rng.choice([1, 2, 5, 30, CAP - 1, CAP]), W=W)
+        h = rng.choice(H)
+        op = rng.choice(["shl_limbs", "shl", "shl"])
+        n = h if op == "shl_limbs" else h * W + rng.choice([0, 1, W - 1])
+        out.append(("bg %s %s %d" % (op, ltok(x), n), "L-huge-" + op))
     return out
 
 # ------------------------------------------------------------------ H*: vector histories (C13)
@@ -862,6 +875,39 @@ def gen_histories(rng, count):
             else:
                 ops.append("isnorm")
         out.append(("vh " + ";".join(ops), "H-history"))
+    return out
+
+def huge_lengths(rng):
+    """lengths far beyond any capacity, in particular those that alias a small number when narrowed to
+    8 / 16 / 32 bits (a length check done in a narrower type accepts them)"""
+    out = []
+    for base in (1 << 8, 1 << 16, 1 << 31, 1 << 32, 3 << 32, 1 << 48):
+        for k in (0, 1, 2, 5, 30, 61, 62, 63):
+            out.append(base + k)
+    for j in (2, 3, 255, 65535):
+        out.append((j << 16) + rng.randint(0, 62))
+    return out
+
+def gen_histories_huge(rng, count):
+    """histories whose resize / extend targets are astronomically large: they must fail and leave the vector
+    as it was (fixed-capacity back-end only - the heap back-end would really allocate)"""
+    out = []
+    H = huge_lengths(rng)
+    for _ in range(count):
+        ops = ["from:" + ltok(rand_big(rng, rng.choice([0, 1, 5, 30, 61, 62]), False))]
+        for _ in range(rng.choice([3, 6, 12])):
+            r = rng.random()
+            if r < 0.5:
+                ops.append("rsz:%d:%d" % (rng.choice(H), rand_limb(rng)))
+            elif r < 0.65:
+                ops.append("rsz:%d:%d" % (rng.choice([0, 3, 62, 63]), rand_limb(rng)))
+            elif r < 0.8:
+                ops.append("push:%d" % rand_limb(rng))
+            elif r < 0.9:
+                ops.append("len")
+            else:
+                ops.append("clone"); ops.append("eq")
+        out.append(("vh " + ";".join(ops), "H-huge-resize"))
     return out
 
 # ------------------------------------------------------------------ rounding primitive (C18)
